@@ -593,11 +593,11 @@ def r7_url_types(ctx, rep):
 
 
 RULES = [
-    RuleSpec("C16.R6", r6_fresh_objects_and_node_urls, "one object per exported entity; external node URLs unchanged", floor=3),
-    RuleSpec("C16.R1", r1_error_coverage, "exception coverage of the external load path", floor=9),
-    RuleSpec("C16.R2", r2_tables_agree, "export/import tables agree", floor=12),
-    RuleSpec("C16.R3", r3_local_precedence, "local entities take precedence over external ones", floor=2),
-    RuleSpec("C16.R4", r4_export_scope, "export scope and external_url short-circuit", floor=4),
-    RuleSpec("C16.R5", r5_remote_base_url, "remote base URL normalised before urljoin", floor=2),
-    RuleSpec("C16.R7", r7_url_types, "external URLs are strings; the local base is a Path", floor=3),
+    RuleSpec("C16.R6", r6_fresh_objects_and_node_urls, "one object per exported entity; external node URLs unchanged", floor=1),
+    RuleSpec("C16.R1", r1_error_coverage, "exception coverage of the external load path", floor=5),
+    RuleSpec("C16.R2", r2_tables_agree, "export/import tables agree", floor=9),
+    RuleSpec("C16.R3", r3_local_precedence, "local entities take precedence over external ones", floor=1),
+    RuleSpec("C16.R4", r4_export_scope, "export scope and external_url short-circuit", floor=2),
+    RuleSpec("C16.R5", r5_remote_base_url, "remote base URL normalised before urljoin", floor=1),
+    RuleSpec("C16.R7", r7_url_types, "external URLs are strings; the local base is a Path", floor=2),
 ]
